@@ -156,6 +156,7 @@ func spec_decoded(path string, k int, v any) bool {
 //@   modifies mb.messages, mb.indexLoaded, mb.name
 //@   ensures ret1 == nil ==> spec_loaded(mb) && len(ret0) == len(mb.messages) &&
 //@      forall i int :: { ret0[i] } 0 <= i && i < len(ret0) ==> ret0[i] != nil && ret0[i].(*Message) == mb.messages[i]
+//@   ensures[fresh] (ret1 == nil ==> vcFresh(ret0)) && (ret1 != nil ==> ret0 == nil)
 //@   loop 1: invariant 0 <= ridx && ridx <= len(mb.messages) && len(messages) == len(mb.messages) && vcFresh(messages) && spec_loaded(mb)
 //@   loop 1: invariant forall i int :: { messages[i] } 0 <= i && i < ridx ==> messages[i] != nil && messages[i].(*Message) == mb.messages[i]
 //@   loop 1: decreases len(mb.messages) - ridx
@@ -286,7 +287,7 @@ func spec_decoded(path string, k int, v any) bool {
 //@ func (*Store).GetMessages
 //@   requires spec_storeOK(fs)
 //@   modifies *
-//@   ensures ret1 == nil ==> forall i int :: { ret0[i] } 0 <= i && i < len(ret0) ==> ret0[i] != nil
+//@   ensures[refinesStore] (vcFresh(ret0) || ret0 == nil) && forall i int :: { ret0[i] } 0 <= i && i < len(ret0) ==> ret0[i] != nil
 //@   serves C07 C12 C13
 //@ func (*Store).RemoveMessage
 //@   requires spec_storeOK(fs)
